@@ -11,7 +11,9 @@ import (
 )
 
 // C17: fsutil.ResolveUrlPath never leaves the base directory.
-// Cases: "E <base> <urlpath> <ResolveUrlPath(base, urlpath)>".
+// Cases: "E <base> <urlpath> <ResolveUrlPath(base, urlpath)>" ("L ..." for the long paths), in call order: the
+// whole run is one process, so state kept across calls by the code under test (caches) is exercised by the
+// nested-base call sequences at the start and at the end.
 // Go-side oracle, independent of the Coq model: filepath.Rel(filepath.Clean(base), result) must
 // succeed and must not be ".." or start with "../"; otherwise "VIOL rel <base> <urlpath> <result> <rel|error>".
 // A panic of the code under test is "VIOL panic <base> <urlpath> <message>".
@@ -43,6 +45,7 @@ func runC17(e *hk.Env) error {
 	cases := 0
 	dotfree := 0
 	climbing := 0
+	tag := "E"
 	one := func(base, p string) string {
 		res, pan := c17Resolve(base, p)
 		cases++
@@ -51,7 +54,7 @@ func runC17(e *hk.Env) error {
 			e.Case("VIOL", "panic", hk.Hxs(base), hk.Hxs(p), hk.Hxs(pan))
 			return ""
 		}
-		e.Case("E", hk.Hxs(base), hk.Hxs(p), hk.Hxs(res))
+		e.Case(tag, hk.Hxs(base), hk.Hxs(p), hk.Hxs(res))
 		rel, err := filepath.Rel(filepath.Clean(base), res)
 		if err != nil {
 			viol++
@@ -63,8 +66,109 @@ func runC17(e *hk.Env) error {
 		return res
 	}
 
-	// corpus first: lines "<hex base> <hex path>"
-	// (none shipped; kept so that replay files can be fed back)
+	// ---- call sequences in one process over nested bases (state carried across calls, e.g. a result cache):
+	// an outer base b and an inner base b/<rel>; url paths "/<rel><T>" (outer) and "<T>" (inner) are the same text
+	// once base and path are concatenated. Both orders, with 0 / 300 / 3000 unrelated distinct calls in between.
+	// Every result is judged like any other case. Directory names carry the block number, so every block meets a
+	// state that has never seen its keys.
+	seqBlock := 0
+	seqCases := 0
+	unrelated := 0
+	sequences := func() {
+		suffixes := []string{"/..", "/../..", "/../../..", "/x", "/../x", "/../../etc/passwd", "/.", "", "/", "/..//", "/%2e%2e", "/..\\.."}
+		for _, gap := range []int{0, 300, 3000} {
+			for order := 0; order < 2; order++ {
+				seqBlock++
+				n := fmt.Sprint(seqBlock)
+				chains := [][]string{
+					{"/srv/www" + n, "static", "img"},
+					{"srv" + n, "www", "static"},
+					{"./rel" + n, "a", "b"},
+					{"/", "top" + n, "sub"},
+					{"../up" + n, "d", "e"},
+					{"/data" + n + "/", "s", "t"},
+				}
+				type call struct{ base, p string }
+				var outer, inner []call
+				for _, ch := range chains {
+					b0 := ch[0]
+					j := func(b, r string) string {
+						if strings.HasSuffix(b, "/") {
+							return b + r
+						}
+						return b + "/" + r
+					}
+					b1 := j(b0, ch[1])
+					b2 := j(b1, ch[2])
+					pairs := []struct{ out, rel, in string }{{b0, ch[1], b1}, {b1, ch[2], b2}, {b0, ch[1] + "/" + ch[2], b2}}
+					for _, pr := range pairs {
+						for _, t := range suffixes {
+							outer = append(outer, call{pr.out, "/" + pr.rel + t}, call{pr.out, pr.rel + t}, call{pr.out, "//" + pr.rel + t})
+							inner = append(inner, call{pr.in, t}, call{pr.in, strings.TrimPrefix(t, "/")})
+						}
+					}
+				}
+				first, second := outer, inner
+				if order == 1 {
+					first, second = inner, outer
+				}
+				for _, c := range first {
+					one(c.base, c.p)
+				}
+				for i := 0; i < gap; i++ {
+					unrelated++
+					one("/unrelated", fmt.Sprintf("/u%d/../v%d", unrelated, unrelated))
+				}
+				for _, c := range second {
+					one(c.base, c.p)
+				}
+				// and strictly alternating: outer call immediately followed by its inner twin
+				seqBlock++
+				n2 := fmt.Sprint(seqBlock)
+				for _, t := range suffixes {
+					a, b := "/alt"+n2, "/alt"+n2+"/in"
+					if order == 1 {
+						one(b, t)
+						one(a, "/in"+t)
+					} else {
+						one(a, "/in"+t)
+						one(b, t)
+					}
+					seqCases += 2
+				}
+				seqCases += len(first) + len(second) + gap
+			}
+		}
+	}
+	sequences()
+	e.Stats["sequence_cases_first_pass"] = seqCases
+
+	// ---- long paths: k repetitions of a depth-neutral unit, then an escape suffix (limits on the number of
+	// elements, buffers, recursion depth). Tag "L": judged by the driver like "E", left out of the in-Coq sample.
+	longCases := 0
+	{
+		tag = "L"
+		ks := []int{100, 254, 255, 256, 257, 300, 1000, 5000}
+		units := []string{"./", "/", "x/../", ".//"}
+		escapes := []string{"../../etc/passwd", "..", "../.."}
+		for _, k := range ks {
+			for _, u := range units {
+				body := strings.Repeat(u, k)
+				for _, esc := range escapes {
+					for bi, base := range c17Bases {
+						if k >= 1000 && !e.Thorough() && bi%3 != 0 {
+							continue
+						}
+						one(base, body+esc)
+						one(base, "/"+body+esc)
+						longCases += 2
+					}
+				}
+			}
+		}
+		tag = "E"
+	}
+	e.Stats["long_path_cases"] = longCases
 
 	// exhaustive: every string of length <= maxLen over the alphabet, for every base spelling
 	var paths []string
@@ -154,6 +258,9 @@ func runC17(e *hk.Env) error {
 		}
 		one(base, p)
 	}
+	// the sequences again, now on a state that has seen everything above
+	sequences()
+	e.Stats["sequence_cases_total"] = seqCases
 	e.Stats["random_cases"] = nRandom
 	e.Stats["random_paths_with_byte_ge_0x80"] = highbit
 	e.Stats["random_path_len_hist_by_16"] = lens
